@@ -65,6 +65,33 @@ class Universe:
             return self.never_cid
         return self.junk_cid
 
+    def add_shard_mate(self, of_tok, nhex=3):
+        """a different content whose address shares its first `nhex` hex characters with that of `of_tok`: the two
+        objects (and nothing else) live under the same first-level shard directories for every width up to nhex"""
+        import hashlib
+        want = self.contents.digest(of_tok, self.alg)[:nhex]
+        k = 0
+        while True:
+            b = b"shard mate %d of %d" % (k, of_tok)
+            if hashlib.new(self.alg, b).hexdigest()[:nhex] == want:
+                t = self.contents.add(b)
+                self.toks = self.toks + [t]
+                return t
+            k += 1
+
+    def add_pid_mate(self, of_pid, nhex=3):
+        """another pid whose hash shares its first `nhex` hex characters with that of `of_pid`: their metadata
+        directories and pid references sit under the same first-level shard directories"""
+        import hashlib
+        want = hashlib.new(self.alg, of_pid.encode("utf-8")).hexdigest()[:nhex]
+        k = 0
+        while True:
+            q = "mate%d" % k
+            if q != of_pid and hashlib.new(self.alg, q.encode("utf-8")).hexdigest()[:nhex] == want:
+                self.pids = self.pids + [q]
+                return q
+            k += 1
+
     def data_ok(self, tok=None):
         tok = self.tok() if tok is None else tok
         kind = self.rng.choice(getattr(self, "kinds", ("str", "str", "Path", "file", "bytesio", "buffered")))
@@ -250,6 +277,8 @@ class Universe:
         which state kept *outside* the store directory (memos, caches, counters on the instance) goes stale"""
         rng = self.rng
         p, q = rng.sample(self.pids[:3] if len(self.pids) >= 3 else self.pids + ["zz"], 2)
+        if getattr(self, "pattern_pids", None):
+            p, q = self.pattern_pids
         if len(self.toks) >= 2:
             A, B = rng.sample(self.toks, 2)
         else:
@@ -258,10 +287,14 @@ class Universe:
         f = rng.choice([x for x in self.formats if isinstance(x, str) and x.strip()] or ["f1"])
         cidA = self.cid_of(A)
         out = []
-        # a pid deleted and stored again with other content while another pid keeps the old object alive
-        out.append([store_object(p, self.data_ok(A)), store_object(q, self.data_ok(A)), get_hex_digest(p, a1),
-                    retrieve_object(p), delete_object(p), store_object(p, self.data_ok(B)), get_hex_digest(p, a1),
-                    retrieve_object(p), get_hex_digest(q, a1), retrieve_object(q)])
+        # a pid deleted and stored again with other content while another pid keeps the old object alive:
+        # once for every ordered pair of the first pids (one may be a prefix / suffix / variant of the other)
+        pool = list(self.pattern_pids) if getattr(self, "pattern_pids", None) else list(self.pids[:3])
+        pairs = [(x, y) for x in pool for y in pool if x != y] or [(p, q)]
+        for (x, y) in pairs:
+            out.append([store_object(x, self.data_ok(A)), store_object(y, self.data_ok(A)), get_hex_digest(x, a1),
+                        retrieve_object(x), delete_object(x), store_object(x, self.data_ok(B)), get_hex_digest(x, a1),
+                        retrieve_object(x), get_hex_digest(y, a1), retrieve_object(y)])
         # last reference deleted, same content stored again
         out.append([store_object(p, self.data_ok(A)), get_hex_digest(p, a1), delete_object(p), store_object(q, self.data_ok(A)),
                     retrieve_object(q), get_hex_digest(q, a1), store_object(p, self.data_ok(A)), retrieve_object(p)])
